@@ -113,6 +113,12 @@ def constructors() -> List[Tuple[str, int, Any]]:
         C.append((f"Call:{f}:kw", 1, lambda k, f=f: ast.Call(func=N(f), args=[], keywords=[ast.keyword(arg="k", value=k[0])])))
         C.append((f"Call:{f}:argkw", 2, lambda k, f=f: ast.Call(func=N(f), args=[k[0]], keywords=[ast.keyword(arg="k", value=k[1])])))
         C.append((f"Call:{f}:kwstar", 1, lambda k, f=f: ast.Call(func=N(f), args=[], keywords=[ast.keyword(arg=None, value=k[0])])))
+        if f not in ("abs", "open"):
+            continue
+        C.append((f"Call:{f}:kwstar2", 2, lambda k, f=f: ast.Call(func=N(f), args=[], keywords=[ast.keyword(arg=None, value=k[0]), ast.keyword(arg=None, value=k[1])])))
+        C.append((f"Call:{f}:kw2", 2, lambda k, f=f: ast.Call(func=N(f), args=[], keywords=[ast.keyword(arg="k", value=k[0]), ast.keyword(arg="j", value=k[1])])))
+        C.append((f"Call:{f}:kw+kwstar", 2, lambda k, f=f: ast.Call(func=N(f), args=[K(1)], keywords=[ast.keyword(arg="k", value=k[0]), ast.keyword(arg=None, value=k[1])])))
+        C.append((f"Call:{f}:star2", 2, lambda k, f=f: ast.Call(func=N(f), args=[ast.Starred(value=k[0], ctx=ast.Load()), ast.Starred(value=k[1], ctx=ast.Load())], keywords=[])))
     C.append(("Call:func", 1, lambda k: ast.Call(func=k[0], args=[K(1)], keywords=[])))
     C.append(("Call:attrfunc", 1, lambda k: ast.Call(func=ast.Attribute(value=k[0], attr="real", ctx=ast.Load()), args=[], keywords=[])))
     C.append(("JoinedStr", 1, lambda k: ast.JoinedStr(values=[K("s"), ast.FormattedValue(value=k[0], conversion=-1)])))
